@@ -430,6 +430,15 @@ func opSyncExp() error {
 				gj = []byte("null")
 			}
 			if string(ej) != string(gj) && !drifted {
+				// C07: same requests from the same store position (equal locators), but a different stop hash: the checkpoint
+				// cursor did not advance as the statement says (next checkpoint after a matching header, unbounded after the last)
+				if len(wantMsgs) == len(got) {
+					for i := range got {
+						if got[i].T == "gh" && wantMsgs[i].T == "gh" && fmt.Sprint(got[i].Loc) == fmt.Sprint(wantMsgs[i].Loc) && got[i].Stop != wantMsgs[i].Stop {
+							miss(k, "sync-contain", fmt.Sprintf("after %s(%v) the next request from locator %v stops at block %d (next checkpoint; -1 = unbounded)", e.Op, e.Ids, got[i].Loc, wantMsgs[i].Stop), fmt.Sprintf("stop %d", got[i].Stop))
+						}
+					}
+				}
 				miss(k, "sync-drift", fmt.Sprintf("after %s(b%d,%s) the engine sends %s", e.Op, e.B, e.How, ej), string(gj))
 				drifted = true
 			}
